@@ -72,6 +72,9 @@ pub struct Subject {
     pub decode: fn(&[u8], &SourceSpec, Mode) -> DecOut,
     pub decode_dyn: fn(&mut dyn DynInput, &[crate::plan::Layer], Mode) -> DynOut,
     pub fixed_size: fn() -> Option<usize>,
+    /// Decodes from a slice; on success returns (encoding of the decoded value, encoding of a
+    /// value rebuilt from its model): "a value built by decoding" is one construction history.
+    pub reencode: fn(&[u8]) -> Option<(Vec<u8>, Vec<u8>)>,
     /// `T::decode_with_mem_limit(&mut &[u8], limit)`
     pub mem_direct: Option<fn(&[u8], usize) -> MemOut>,
     pub decode_len: Option<fn(&[u8]) -> Result<usize, String>>,
@@ -270,6 +273,18 @@ fn decode_dyn_op<T: Modelled + Decode>(inp: &mut dyn DynInput, layers: &[crate::
     }
 }
 
+fn reencode_op<T: Modelled + Encode + Decode>(data: &[u8]) -> Option<(Vec<u8>, Vec<u8>)> {
+    let mut s: &[u8] = data;
+    match T::decode(&mut s) {
+        Ok(t) => {
+            let a = t.encode();
+            let rebuilt = T::from_model(&t.to_model());
+            Some((a, rebuilt.encode()))
+        },
+        Err(_) => None,
+    }
+}
+
 fn fixed_size_op<T: Decode>() -> Option<usize> {
     T::encoded_fixed_size()
 }
@@ -311,6 +326,7 @@ impl Subject {
             decode: decode_op::<T>,
             decode_dyn: decode_dyn_op::<T>,
             fixed_size: fixed_size_op::<T>,
+            reencode: reencode_op::<T>,
             mem_direct: None,
             decode_len: None,
             mem_size: std::mem::size_of::<T>(),
@@ -407,7 +423,10 @@ pub fn build_catalogue() -> Vec<Subject> {
         StructNamed [mem]; StructTuple [mem]; StructUnit [mem]; GenericS<u16> [mem]; GenericS<String> [mem]; WithSkip [mem]; WithCompact [mem];
         SingleCompact [mem]; SingleWithSkip [mem]; WithEncodedAs [mem]; UsesCa [mem]; Tr1 [mem]; Tr2 [mem]; Tr3 [mem]; Tr4 [mem];
         EnumData [mem]; EnumIdx [mem]; EnumDisc [mem]; EnumSkip [mem]; GenericE<u32> [mem]; GenericE<Vec<u8>> [mem];
-        Tree [mem]; Chain [mem];
+        Tree [mem]; Chain [mem]; MarkChain [mem]; Vec<MarkChain> [mem, len];
+        Vec<(Rc<()>, Vec<Vec<Vec<u8>>>)> [mem, len]; Vec<(Box<()>, Box<Box<Vec<String>>>)> [mem, len]; BTreeMap<u8, (Arc<()>, Vec<Vec<u16>>)> [mem, len];
+        Unit1 [mem]; Unit9 [mem]; Vec<Unit1> [mem, len]; [Unit9; 3] [mem]; TrZ [mem]; Box<TrZ> [mem]; [TrZ; 2] [mem]; Rc<TrZ> [mem]; TrZ2 [mem]; Box<TrZ2> [mem]; [TrZ2; 2] [mem]; Vec<TrZ> [mem, len]; Option<Unit1> [mem]; (Unit1, u8, Unit9) [mem];
+        Vec<Box<u32>> [mem, len]; Vec<Rc<u16>> [mem, len]; VecDeque<Arc<u64>> [mem, len]; [Box<i16>; 4] [mem]; Vec<Vec<Box<u8>>> [mem, len]; Vec<Compact<u32>> [mem, len]; Vec<Compact<u128>> [mem, len]; Vec<Duration> [mem, len]; Vec<NonZeroU32> [mem, len]; Vec<OptionBool> [mem, len]; Vec<Range<u32>> [mem, len]; BTreeMap<Compact<u32>, Vec<u8>> [mem, len]; BinaryHeap<String> [mem, len]; [Option<bytes::Bytes>; 2] [mem]; Result<Vec<u8>, Option<u16>> [mem]; Option<bytes::Bytes> [mem]; (bytes::Bytes, u32) [mem]; (bytes::Bytes, bytes::Bytes) [mem];
         TrC [mem]; TrE [mem]; TrS [mem]; Box<TrC> [mem]; [TrC; 3] [mem]; Rc<TrC> [mem]; Box<TrE> [mem]; Arc<[TrE; 2]> [mem]; [TrS; 2] [mem]; Box<TrS> [mem];
         Arc<[Tr1; 2]> [mem]; Box<Tr3> [mem]; Box<[Tr4; 2]> [mem]; Box<WithCompact> [mem]; [SingleCompact; 2] [mem]; Box<UsesCa> [mem]; [EnumSkip; 2] [mem]; Box<EnumData> [mem];
         // nestings
